@@ -114,8 +114,8 @@ def run(tier: str, verif_seed: int) -> int:
             distinct_nontrivial=len({(json.dumps(c["env"], sort_keys=True), c["perm"]) for c in confs if c["n_accepted"] > 0}),
             rule=(
                 "one evaluation = the complete overload-resolution outcome table (every operator x every argument-type tuple "
-                "over the 48-type universe for arity <= 2, declared types for later positions, plus lca_type over pairs/triples and casts; "
-                "additionally ~16k (operator, column-type tuple) cases through one reused deferred expression per operator in mutate (O13.5); "
+                "over the 52-type universe for arity <= 2, declared types for later positions, plus lca_type over pairs/triples and casts; "
+                "additionally ~18k (operator, column-type tuple) cases through one reused deferred expression per operator in mutate (O13.5); "
                 "resolution and ColFn construction) recomputed in one configuration = (PYTHONHASHSEED, dtype-hash salt, "
                 "declaration-order permutation of every signature trie node and of IMPLICIT_CONVS); distinct = distinct "
                 "configuration; non-trivial = the table has accepted entries"
